@@ -550,3 +550,88 @@ func TestReplay(t *testing.T) {
 	json.Unmarshal(b, &c)
 	dispatchOracle(t, c)
 }
+
+// TestRetention: "never ... retains memory beyond a fixed bound": many unsolicited packets of one
+// kind with distinct ids and sizeable bodies on fresh unauthenticated connections; after the
+// connections are closed and the garbage collector has run, the live heap must not have grown
+// by more than a fixed bound (the server may not park what strangers send).
+func TestRetention(t *testing.T) {
+	type kind struct {
+		ty   byte
+		cmd  int // -1: not a command packet
+		body func(i int, pad string) string
+	}
+	pad := strings.Repeat("r", 96*1024)
+	var kinds []kind
+	known := []int{10, 11, 13, 35, 50, 51, 60, 70, 71, 72, 73, 74, 75, 76, 80, 81, 82, 83, 84, 85, 86, 87, 90, 91, 92, 93, 94, 95, 96, 100, 101, 102}
+	for _, ty := range []byte{0x10, 0x11} {
+		for _, c := range known {
+			c := c
+			kinds = append(kinds, kind{ty, c, func(i int, pad string) string {
+				return fmt.Sprintf(`{"request_id":"req-%d","command_id":"c-%d","mapping_id":"m-%d","tunnel_id":"t-%d","domain":"d%d.example","code":"code-%d","status_code":200,"body":"%s"}`, i, i, i, i, i, i, pad)
+			}})
+		}
+	}
+	for _, ty := range []byte{0x01, 0x20, 0x22, 0x23} {
+		kinds = append(kinds, kind{ty, -1, func(i int, pad string) string {
+			return fmt.Sprintf(`{"client_id":%d,"tunnel_id":"t-%d","mapping_id":"m-%d","token":"%s"}`, 1000+i, i, i, pad)
+		}})
+	}
+	const perKind = 160   // x 96 KiB = 15 MiB sent per kind
+	const bound = 4 << 20 // live heap growth tolerated after everything was closed and collected
+	heap := func() uint64 {
+		runtime.GC()
+		runtime.GC()
+		var ms runtime.MemStats
+		runtime.ReadMemStats(&ms)
+		return ms.HeapAlloc
+	}
+	measure := func(k kind) int64 {
+		srv, err := miniserver.New(miniserver.Options{RoutingTTL: time.Minute})
+		if err != nil {
+			t.Fatalf("harness: %v", err)
+		}
+		defer srv.Close()
+		before := heap()
+		for i := 0; i < perKind; i++ {
+			cl, err := srv.Connect(fmt.Sprintf("8.8.%d.%d:4040", i/250, i%250))
+			if err != nil {
+				t.Fatalf("harness: %v", err)
+			}
+			p := &packet.TransferPacket{PacketType: packet.Type(k.ty)}
+			if k.cmd >= 0 {
+				p.CommandPacket = &packet.CommandPacket{CommandType: packet.CommandType(k.cmd), CommandId: fmt.Sprintf("cid-%d", i), CommandBody: k.body(i, pad)}
+			} else {
+				p.Payload = []byte(k.body(i, pad))
+			}
+			func() {
+				defer func() { recover() }()
+				cl.Push(p)
+			}()
+			cl.CloseByPeer()
+		}
+		grown := int64(heap()) - int64(before)
+		if grown > bound {
+			time.Sleep(200 * time.Millisecond) // delayed frees / finalizers
+			grown = int64(heap()) - int64(before)
+		}
+		return grown
+	}
+	for ki, k := range kinds {
+		if !vkit.Mine(ki) {
+			continue
+		}
+		c := DispCase{Type: k.ty, HasCmd: k.cmd >= 0, CmdType: byte(k.cmd), Body: "retention x" + fmt.Sprint(perKind)}
+		vkit.Journal("retention", c)
+		grown := measure(k)
+		if grown > bound {
+			grown = measure(k) // an independent second measurement must confirm it
+		}
+		name := fmt.Sprintf("type=%#x/cmd=%d", k.ty, k.cmd)
+		if grown > bound {
+			vkit.Violation(t, "C05/dispatcher-retains-memory/"+name, fmt.Sprintf("%d packets of ~96 KiB each on fresh unauthenticated connections (all closed): live heap grew by %d bytes after GC (bound %d)", perKind, grown, bound), c)
+			continue
+		}
+		vkit.Case("retention:"+name, true, "retention:"+name)
+	}
+}
